@@ -207,6 +207,10 @@ func (bsp *batchSpanProcessor) ForceFlush(ctx context.Context) error {
 			case <-ctx.Done():
 				return ctx.Err()
 			}
+		} else if err := ctx.Err(); err != nil {
+			// The context was done before the flush marker could be queued:
+			// spans queued before this call have not been flushed.
+			return err
 		}
 
 		wait := make(chan error, 1)
